@@ -5,6 +5,7 @@ import (
 	"fmt"
 	"html"
 	"strings"
+	"unicode/utf8"
 
 	"github.com/textwire/textwire/v2/ctx"
 	"github.com/textwire/textwire/v2/fail"
@@ -97,7 +98,14 @@ func strCapitalizeFunc(_ *ctx.EvalCtx, receiver object.Object, _ ...object.Objec
 		return &object.Str{Value: ""}, nil
 	}
 
-	newVal := strings.ToUpper(val[:1]) + val[1:]
+	// the first character may take more than one byte
+	first, size := utf8.DecodeRuneInString(val)
+
+	if first == utf8.RuneError {
+		return &object.Str{Value: val}, nil
+	}
+
+	newVal := strings.ToUpper(string(first)) + val[size:]
 
 	return &object.Str{Value: newVal}, nil
 }
